@@ -280,9 +280,9 @@ pub fn fault_plan(t: &Trace, medium_len: usize, tier: Tier) -> Vec<Fault> {
 }
 
 /// Deterministic (PRNG-free) sweep history: every bit pattern of an 8- or 16-bit layout goes
-/// through the canonical encode_to/decode pair, and through a second record whose writer, reader
-/// and reader layout rotate with the value so that every entry point sees the whole value space
-/// of some layout. Index space: (layout among the 8/16-bit ones) x (value).
+/// through the canonical encode_to/decode pair (exhaustive per layout), and through a second record
+/// whose writer, reader and reader layout rotate with the value and the layout's rank, so that every
+/// single writer and reader meets every bit pattern of the width in some layout. Index space: (layout among the 8/16-bit ones) x (value).
 pub fn sweep_space(world: &World, sixteen: bool) -> Vec<(u16, u32)> {
     let mut v = Vec::new();
     for (i, o) in world.table.iter().enumerate() {
@@ -295,14 +295,13 @@ pub fn sweep_space(world: &World, sixteen: bool) -> Vec<(u16, u32)> {
 pub fn sweep_trace(world: &World, lay: u16, value: u32, idx: u64) -> Trace {
     let o = &world.table[lay as usize];
     let peers = &world.by_width[widx(o.w)];
-    // the same-frac layout of the other signedness, else any peer picked by the value
-    let peer = peers
-        .iter()
-        .copied()
-        .find(|p| world.table[*p as usize].frac == o.frac && world.table[*p as usize].signed != o.signed)
-        .unwrap_or(peers[value as usize % peers.len()]);
-    let writer = WRITERS[value as usize % WRITERS.len()];
-    let reader = READERS[(value as usize / WRITERS.len()) % READERS.len()];
+    // rank of this layout among the layouts of its width: the rotation below is offset by it, so that
+    // across the 18 (8-bit) / 34 (16-bit) layouts every writer, every reader and every reader layout
+    // meets every bit pattern of the width in some layout (not every *pair* does: 224 pairs, 18 layouts)
+    let rank = peers.iter().position(|p| *p == lay).unwrap_or(0);
+    let peer = peers[(rank + 1 + value as usize) % peers.len()];
+    let writer = WRITERS[(value as usize + rank) % WRITERS.len()];
+    let reader = READERS[(value as usize / WRITERS.len() + rank) % READERS.len()];
     let v = value as u128;
     let records = vec![
         Record { w_lay: lay, r_lay: lay, shape: Shape::Bare, vals: vec![v], splits: vec![], writer: Writer::EncodeTo, reader: Reader::Decode },
